@@ -11,6 +11,7 @@ mod util;
 mod clock;
 mod conv;
 mod m_http;
+mod m_pool;
 mod m_tcp;
 mod m_tls;
 mod m_db;
@@ -35,6 +36,7 @@ fn main() {
         "tcp" => m_tcp::run(&mut input, &mut out, rest),
         "tls" => m_tls::run(&mut input, &mut out, rest),
         "http" => m_http::run(&mut input, &mut out, rest),
+        "pool" => m_pool::run(&mut input, &mut out, rest),
         m => {
             eprintln!("unknown mode {m}");
             std::process::exit(2);
